@@ -26,7 +26,10 @@ def wo_field(c):
 def run_probe(prop, pairs, max_devices=24):
     """pairs: [(case, impl_answer with tokens, model_facts)] of accepted definitions."""
     rng = random.Random(seed() ^ 0x5A5A)
-    chosen = [(c, a, mf) for c, a, mf in pairs if a.get("tokens") and not has_cfg(c) and not wo_field(c)][:max_devices]
+    import p_probe
+    # devices that cannot compile for a recorded reason (a field wider than 128 bits: F18) are C19's concern
+    chosen = [(c, a, mf) for c, a, mf in pairs if a.get("tokens") and not has_cfg(c) and not wo_field(c)
+              and not p_probe.has_wide_field(c["adef"])][:max_devices]
     stats = {"runtime_devices": 0, "runtime_lines": 0, "runtime_panics": 0}
     viols = []
     if not chosen:
